@@ -149,6 +149,71 @@ macro_rules! ans_impl {
                             Err(TryCodingError::InvalidEntropyModel(())) => ERR_INVALID_MODEL,
                         });
                     }
+                    18 => {
+                        // try_encode_symbols_reverse: Err item at index f of the (forward) item list
+                        let m = &models[r.us()];
+                        let syms: Vec<i64> = r.list().into_iter().map(|x| x as i64).collect();
+                        let fail_at = r.us();
+                        let res = with_p!($Pr, m.p, $plist, |tm| {
+                            let items: Vec<Result<(i64, _), ()>> = syms.iter().enumerate().map(|(i, s)| {
+                                if i == fail_at { Err(()) } else { Ok((*s, tm)) }
+                            }).collect();
+                            coder.try_encode_symbols_reverse(items)
+                        }, &m.t);
+                        out.push(match res {
+                            Ok(()) => 0,
+                            Err(TryCodingError::CodingError(CoderError::Frontend(_))) => ERR_IMPOSSIBLE,
+                            Err(TryCodingError::CodingError(CoderError::Backend(e))) => match e {},
+                            Err(TryCodingError::InvalidEntropyModel(())) => ERR_INVALID_MODEL,
+                        });
+                    }
+                    19 | 20 => {
+                        // encode_symbols_reverse / encode_symbols with (symbol, model) pairs
+                        let m = &models[r.us()];
+                        let syms: Vec<i64> = r.list().into_iter().map(|x| x as i64).collect();
+                        let res = with_p!($Pr, m.p, $plist, |tm| {
+                            let items: Vec<(i64, _)> = syms.iter().map(|s| (*s, tm)).collect();
+                            if op == 19 {
+                                coder.encode_symbols_reverse(items)
+                            } else {
+                                coder.encode_symbols(items)
+                            }
+                        }, &m.t);
+                        out.push(match res {
+                            Ok(()) => 0,
+                            Err(CoderError::Frontend(_)) => ERR_IMPOSSIBLE,
+                            Err(CoderError::Backend(e)) => match e {},
+                        });
+                    }
+                    21 => {
+                        // decode_symbols with k copies of the model, drained with a cap
+                        let m = &models[r.us()];
+                        let k = r.us();
+                        let res: Vec<i64> = with_p!($Pr, m.p, $plist, |tm| {
+                            coder.decode_symbols((0..k).map(|_| tm)).take(k + 4).map(|x| x.unwrap()).collect()
+                        }, &m.t);
+                        out.push(res.len() as Int);
+                        out.extend(res.iter().map(|&s| s as Int));
+                    }
+                    22 => {
+                        // try_decode_symbols: the model at index f is an Err item
+                        let m = &models[r.us()];
+                        let k = r.us();
+                        let fail_at = r.us();
+                        let res: Vec<Int> = with_p!($Pr, m.p, $plist, |tm| {
+                            coder
+                                .try_decode_symbols((0..k).map(|i| if i == fail_at { Err(()) } else { Ok(tm) }))
+                                .take(k + 4)
+                                .map(|x| match x {
+                                    Ok(s) => s as Int,
+                                    Err(TryCodingError::InvalidEntropyModel(())) => ERR_INVALID_MODEL * 1000,
+                                    Err(_) => unreachable!(),
+                                })
+                                .collect()
+                        }, &m.t);
+                        out.push(res.len() as Int);
+                        out.extend(res);
+                    }
                     12 => push_raw(&coder, out),
                     13 => {
                         let m = &models[r.us()];
